@@ -8,9 +8,10 @@ theorem consults_sub_names (p : Path) (s : Switch) (h : p.consults = some s) : p
   cases p <;> simp_all [Path.consults, Path.names]
 
 /-- a path that names a switch but whose handler reads none is one of the two direct pool-withdraw
-    entries -/
+    entries or an LP-token `Send` whose payload is not a hook message (refused before any switch is read) -/
 theorem names_not_consulted (p : Path) (s : Switch) (hn : p.names = some s) (hc : p.consults = none) :
-    p = .pairWithdrawDirect ∨ p = .trioWithdrawDirect := by
+    p = .pairWithdrawDirect ∨ p = .trioWithdrawDirect ∨ p = .pairHookMalformed ∨ p = .trioHookMalformed
+      ∨ p = .vaultHookMalformed := by
   cases p <;> simp_all [Path.consults, Path.names]
 
 theorem gate_of_consults {p : Path} {s : Switch} (h : p.consults = some s) (f : Flags) :
